@@ -1,6 +1,7 @@
 """Seeded generator of engines as plain-data specs + build(spec) -> fresh, history-free Engine."""
 from __future__ import annotations
 
+import copy
 import math
 
 from ..ref.norms import SNORMS, TNORMS
@@ -164,6 +165,8 @@ def gen_engine(
         spec["shared_defuzzifier"] = rnd.choice(["WeightedAverage", "WeightedSum"])
     if routes:
         spec["route"] = rnd.choice(ROUTES)
+        if spec["route"] == "engine-configure" and not uniform(rnd, spec):
+            spec["route"] = "constructors"
     if descriptions:
         for part in spec["outputs"] + spec["blocks"]:
             part["description"] = rnd.choice(["", "", "some text: with a colon", "x = 1, y = 2 (approx.)"])
@@ -193,7 +196,36 @@ def build_defuzzifier(fl, dz):
     return getattr(fl, dz["cls"])(dz["resolution"]) if "resolution" in dz else getattr(fl, dz["cls"])(dz["type"])
 
 
-ROUTES = ["constructors", "constructors", "factories", "fll", "python", "configure", "copy", "rule-create-with-engine"]
+ROUTES = ["constructors", "constructors", "factories", "fll", "python", "configure", "copy", "rule-create-with-engine", "engine-configure", "deepcopy"]
+
+
+def uniform(rnd, spec):
+    """make the spec one that Engine.configure can produce: the same operators in every rule block, one aggregation and one
+    defuzzifier (default parameters when given by name) for every output variable; returns False when the output variables
+    cannot share a defuzzifier (integral and weighted ones mixed)"""
+    families = {o["kind"] == "integral" for o in spec["outputs"]}
+    if len(families) != 1:
+        return False
+    first = spec["blocks"][0]
+    for rb in spec["blocks"][1:]:
+        for k in ("conjunction", "disjunction", "implication", "activation"):
+            rb[k] = first[k]
+    by = {k: rnd.choice(["name", "name", "object"]) for k in ("conjunction", "disjunction", "implication", "aggregation", "defuzzifier", "activation")}
+    if first["activation"] and first["activation"].get("args"):
+        by["activation"] = "object"
+    o0 = spec["outputs"][0]
+    if o0["kind"] == "integral":
+        if rnd.random() < 0.8:
+            by["defuzzifier"] = "object"
+        dz = dict(cls=o0["defuzzifier"]["cls"], resolution=o0["defuzzifier"]["resolution"] if by["defuzzifier"] == "object" else 1000)
+    else:
+        dz = dict(cls=o0["defuzzifier"]["cls"], type="Automatic")
+    for o in spec["outputs"]:
+        o["aggregation"] = o0["aggregation"]
+        o["defuzzifier"] = dict(dz)
+    spec["configure_by"] = by
+    spec.pop("shared_defuzzifier", None)
+    return True
 
 
 def build(fl, spec, route=None):
@@ -211,6 +243,9 @@ def build(fl, spec, route=None):
         e = _restore_flags(spec, e2)
     elif route == "copy":
         e = e.copy()
+        e.restart()
+    elif route == "deepcopy":
+        e = copy.deepcopy(e)
         e.restart()
     return e
 
@@ -266,6 +301,33 @@ def _build(fl, spec, route):
             t.update_reference(e)
     for rb in e.rule_blocks:
         rb.load_rules(e)
+    if route == "engine-configure" and spec.get("configure_by"):
+        by = spec["configure_by"]
+        # (a caller may have removed operators from single components: take each from the first component that has it)
+        b0 = {k: next((rb[k] for rb in spec["blocks"] if rb[k] is not None), None) for k in ("conjunction", "disjunction", "implication", "activation")}
+        o0 = {k: next((ov[k] for ov in spec["outputs"] if ov[k] is not None), None) for k in ("aggregation", "defuzzifier")}
+
+        def arg(k, value, make):
+            return None if value is None else (value if by[k] == "name" else make())
+
+        a = b0["activation"]
+        e.configure(
+            conjunction=arg("conjunction", b0["conjunction"], lambda: getattr(fl, b0["conjunction"])()),
+            disjunction=arg("disjunction", b0["disjunction"], lambda: getattr(fl, b0["disjunction"])()),
+            implication=arg("implication", b0["implication"], lambda: getattr(fl, b0["implication"])()),
+            aggregation=arg("aggregation", o0["aggregation"], lambda: getattr(fl, o0["aggregation"])()),
+            defuzzifier=arg("defuzzifier", o0["defuzzifier"] and o0["defuzzifier"]["cls"], lambda: build_defuzzifier(fl, o0["defuzzifier"])),
+            activation=arg("activation", a and a["cls"], lambda: getattr(fl, a["cls"])(*a.get("args", ()))),
+        )
+        # operators a caller removed from single components afterwards stay removed
+        for rb, rbs in zip(e.rule_blocks, spec["blocks"]):
+            for k in ("conjunction", "disjunction", "implication", "activation"):
+                if rbs[k] is None:
+                    setattr(rb, k, None)
+        for ov, ovs in zip(e.output_variables, spec["outputs"]):
+            for k in ("aggregation", "defuzzifier"):
+                if ovs[k] is None:
+                    setattr(ov, k, None)
     if route == "configure" and not spec.get("shared_defuzzifier"):
         # the same operators again, given by name to the block / variable (what Engine.configure does for a whole engine)
         fm = fl.settings.factory_manager
